@@ -9,7 +9,7 @@
    peers, envelopes, faults, any interleaving of the goroutines. *)
 From Coq Require Import List ZArith Bool.
 Import ListNotations.
-From Goat Require Import Model.Proxy Proofs.ProxyProofs Proofs.ProxyOrder Proofs.ProxyWire.
+From Goat Require Import Model.Proxy Proofs.ProxyProofs Proofs.ProxyOrder Proofs.ProxyWire Proofs.ProxyMeasure.
 Open Scope Z_scope.
 
 (* per destination record i: what was enqueued for i is, in order, what i's connection was handed, then at
@@ -123,6 +123,40 @@ Theorem C16_delivered_Q : forall cf ls s, lrun cf init ls = Some s -> quiescent 
 Proof. exact C16_delivered_Q_l. Qed.
 Print Assumptions C16_delivered_Q.
 
+(* ---------- termination: no quiescence hypothesis left to the reader ---------- *)
+(* every internal rule strictly decreases [measure] (per record: 5 per envelope still to be read, 3 per buffered
+   envelope, a few units for the position of each loop; 1 for the running forwarding loop) *)
+Theorem C16_measure : forall cf s n s', lstep cf s (LInt n) = Some s' -> (measure s' < measure s)%nat.
+Proof. exact C16_measure_l. Qed.
+Print Assumptions C16_measure.
+
+(* hence every continuation by internal rules alone, from ANY state, has at most [measure s] steps ... *)
+Theorem C16_terminates : forall cf ns s s', lrun cf s (ints ns) = Some s' -> (length ns + measure s' <= measure s)%nat.
+Proof. exact C16_terminates_l. Qed.
+Print Assumptions C16_terminates.
+
+(* ... and from every state a maximal one exists (it ends in a state in which no internal rule is enabled) *)
+Theorem C16_run_to_quiescence : forall cf s,
+  exists ns s', lrun cf s (ints ns) = Some s' /\ quiescent cf s' = true /\ (length ns <= measure s)%nat.
+Proof. exact C16_run_to_quiescence_l. Qed.
+Print Assumptions C16_run_to_quiescence.
+
+(* C16_delivered: from every reachable state s, along EVERY maximal continuation by internal rules (the environment
+   does nothing more; the continuation is finite by C16_terminates and exists by C16_run_to_quiescence), a record
+   whose write loop is alive and idle at the end - its peer reachable: connected, its Write not stalled, not failed -
+   has been handed, in order and once each (C16_accounting), everything ever enqueued for it; and when nothing was
+   dropped-when-full for it (C16_no_loss_outstanding), exactly everything accepted and routed to it: what had been
+   accepted at s, then what the continuation accepted. "To the right peer, unchanged": C16_route / C16_wire. *)
+Theorem C16_delivered : forall cf ls s, lrun cf init ls = Some s ->
+  forall ns s', lrun cf s (ints ns) = Some s' -> quiescent cf s' = true ->
+  forall i ci, nth_error (clients s') i = Some ci -> p_wr ci = WRSel ->
+    buf_of s' i = [] /\ wr_pend s' i = [] /\ wfails i (log s') = [] /\
+    outs i (log s') = enqs i (log s') /\
+    (dropped i (log s') = [] ->
+       outs i (log s') = fwds i (log s') /\ exists later, outs i (log s') = fwds i (log s) ++ later).
+Proof. exact C16_delivered_l. Qed.
+Print Assumptions C16_delivered.
+
 (* the proxy as a wire: when nothing was ever dropped for destination record i (which the two theorems above
    guarantee below the buffer), then for EVERY source record j: the enqueued sequence of i (each envelope tagged
    with the record it came from) is what i's connection was handed ++ at most one failed write ++ the one being
@@ -205,3 +239,15 @@ Example C16_ex_outstanding : exists s, lrun cf0 init ex16 = Some s /\
   forallb (fun k => Nat.leb (length (fwds 1 (firstn k (log s)))) (length (outs 1 (firstn k (log s))) + 2))
           (seq 0 (S (length (log s)))) = true /\ length (fwds 1 (log s)) = 2%nat.
 Proof. eexists. split. vm_compute. reflexivity. vm_compute. split; reflexivity. Qed.
+
+(* non-vacuity of C16_delivered: from the state after the three deliveries of ex16 (nothing forwarded yet, the dial of
+   name 3 answered at once) a maximal internal continuation exists, is as long as the measure allows at most, and
+   ends with both envelopes for record 1 handed over *)
+Definition ex16_pre : list label :=
+  [LExt (AAttach 1 true); LExt (AAttach 2 true);
+   LExt (ADeliver 0 (m 1 2 70)); LExt (ADeliver 0 (m 1 2 71))].
+Example C16_ex_delivered : exists s s', lrun cf0 init ex16_pre = Some s /\ measure s = 19%nat /\
+  lrun cf0 s (ints [5; 1; 5; 1; 21; 23; 21; 23]%nat) = Some s' /\ quiescent cf0 s' = true /\
+  outs 1 (log s') = [mkEnv true 1 2 [99] None 70; mkEnv true 1 2 [99] None 71] /\ fwds 1 (log s) = [].
+Proof. eexists. eexists. split. vm_compute. reflexivity. split. vm_compute. reflexivity.
+  split. vm_compute. reflexivity. vm_compute. repeat split; reflexivity. Qed.
